@@ -5,8 +5,10 @@ import (
 	"sort"
 	"strings"
 	"testing"
+	"time"
 
 	"github.com/xelaj/mtproto/telegram/verifh/hx"
+	"github.com/xelaj/mtproto/telegram/verifh/scen"
 	"github.com/xelaj/mtproto/telegram/verifh/tlx"
 	"verif/evid"
 )
@@ -68,6 +70,13 @@ func compare(key string) []string {
 func TestC13(t *testing.T) {
 	setup(t)
 	if p := hx.ReplayPath(); p != "" {
+		var mc struct{ Methods *methodCase }
+		if err := evid.LoadReplay(p, &mc); err == nil && mc.Methods != nil && mc.Methods.Scenario != nil {
+			run.Case(true, 1)
+			run.Case(true, 2)
+			runMethods(t, mc.Methods.Scenario, "replay")
+			return
+		}
 		var c Case
 		if err := evid.LoadReplay(p, &c); err != nil {
 			t.Fatal(err)
@@ -152,4 +161,87 @@ func goType(d *tlx.Def) any {
 		return "<none>"
 	}
 	return t
+}
+
+// ---------- part B: every generated client method called end to end ----------
+
+type methodCase struct {
+	Scenario *scen.Scenario
+	Function string
+}
+
+func runMethods(t *testing.T, sc *scen.Scenario, round string) bool {
+	res, err := scen.RunChild(sc, 300*time.Second)
+	if err != nil {
+		t.Logf("INFRA: %v", err)
+		return true
+	}
+	if res.Died {
+		c := methodCase{Scenario: sc}
+		p := run.ViolationNamed("methods-died-"+round, map[string]any{"Methods": c}, "client process died while its methods were called: "+scen.PanicSite(res.Stderr))
+		t.Errorf("violation (replay %s)", p)
+		return false
+	}
+	if !res.Connected {
+		c := methodCase{Scenario: sc}
+		p := run.ViolationNamed("methods-connect-"+round, map[string]any{"Methods": c}, "telegram.NewClient failed against the reference server (invokeWithLayer/initConnection/help.getConfig): "+res.ConnectErr)
+		t.Errorf("violation (replay %s): %s", p, res.ConnectErr)
+		return false
+	}
+	ok := true
+	for _, m := range res.Methods {
+		cls := []string{"method-call", "programs", "result-kind:" + m.Result}
+		if m.Args == 1 {
+			cls = append(cls, "args:single-or-params-struct")
+		} else if m.Args > 1 {
+			cls = append(cls, "args:positional")
+		}
+		run.Case(true, evid.Hash("method", m.Function, sc.Methods.Seed, sc.Methods.Invert), cls...)
+		if m.OK {
+			continue
+		}
+		if strings.HasPrefix(m.Msg, "INFRA:") {
+			run.Class("method-skipped-by-harness", 1)
+			continue
+		}
+		run.Class("disagreements_checked", 1)
+		one := *sc
+		ms := *sc.Methods
+		ms.Only = m.Function
+		one.Methods = &ms
+		p := run.ViolationNamed("method-"+strings.ReplaceAll(m.Function, ".", "_")+"-"+round, map[string]any{"Methods": methodCase{Scenario: &one, Function: m.Function}}, m.Method+" ("+m.Function+"): "+m.Msg)
+		t.Errorf("violation (replay %s): %s: %s", p, m.Method, m.Msg)
+		ok = false
+	}
+	if len(res.Methods) < 300 && sc.Methods.Only == "" {
+		t.Logf("INFRA: only %d methods were called", len(res.Methods))
+	}
+	if len(res.Methods) > 0 {
+		run.Sample(map[string]any{"method": res.Methods[len(res.Methods)/2].Method, "function": res.Methods[len(res.Methods)/2].Function, "result_kind": res.Methods[len(res.Methods)/2].Result})
+	}
+	return ok
+}
+
+func TestC13Methods(t *testing.T) {
+	if hx.ReplayPath() != "" {
+		return
+	}
+	keys, err := scen.KeyPool()
+	if err != nil {
+		t.Fatalf("INFRA: %v", err)
+	}
+	rounds := run.Pick(2, 30)
+	nsh := hx.NShards()
+	for r := 0; r < rounds; r++ {
+		if r%nsh != run.Shard-100 && nsh > 1 {
+			if r%nsh != run.Shard%nsh {
+				continue
+			}
+		}
+		sc := &scen.Scenario{Kind: "methods", RSA: keys[r%len(keys)], Resume: &scen.Resume{AuthKey: hx.Det(run.Seed+uint64(r), 256), Salt: int64(hx.DetU64(run.Seed + uint64(r)))},
+			Methods: &scen.MethodsSpec{Seed: run.Seed*131 + uint64(r/2), Invert: r%2 == 1}, PatienceMs: 3000}
+		if !runMethods(t, sc, fmt.Sprintf("r%d", r)) {
+			return
+		}
+	}
 }
